@@ -46,7 +46,7 @@ package varmq
 
 // Worker invariant, per lifecycle state (C14): what "Running" must mean for the worker to be able to process jobs.
 //@ pred RI_worker(w *worker) := w != nil && PoolOK(w) && QM(w) && w.metrics != nil && w.waiters != nil && w.workerFunc != nil
-//@      && 0 <= w.status && w.status <= stopped && w.concurrency >= 1 && w.$disp >= 0 && w.$armed >= 0 && w.$listeners >= 0
+//@      && 0 <= w.status && w.status <= stopped && w.concurrency >= 1 && w.$disp >= 0 && w.$armed >= 0 && w.$listeners >= 0 && w.$reapers >= 0
 //@      && (w.status == initiated ==> w.eventLoopSignal != nil && $open(w.eventLoopSignal) && $cap(w.eventLoopSignal) >= 1 && w.errorChan != nil && $open(w.errorChan)
 //@                                     && w.$disp == 0 && w.$listeners == 0 && w.pool.List.len == 0 && w.curProcessing == 0)
 //@      && ((w.status == running || w.status == paused) ==> w.eventLoopSignal != nil && $open(w.eventLoopSignal) && $cap(w.eventLoopSignal) >= 1
@@ -341,7 +341,7 @@ package varmq
 //@   ensures [initiated] old(w.status) == initiated ==> result == ErrNotRunningWorker && w.status == initiated
 //@   ensures [stops]     (old(w.status) == running || old(w.status) == paused) ==> result == nil && w.status == stopped && w.curProcessing == 0
 //@                          && w.eventLoopSignal == nil && w.errorChan == nil && w.$disp == 0 && w.pool.List.len == 0 && len(w.tickers) == 0
-//@   ensures [reapers]   (old(w.status) == running || old(w.status) == paused) ==> w.$reapers == 0
+//@   ensures [reapers@C18]   (old(w.status) == running || old(w.status) == paused) ==> w.$reapers == 0
 //@   ensures [ri]        RI_worker(w)
 //@   ghost after call funcvalue when w.$listeners > 0: w.$armed := w.$armed + w.$listeners
 //@   ghost after call funcvalue: w.$listeners := 0
@@ -367,7 +367,7 @@ package varmq
 //@            $open(w.eventLoopSignal), $open(w.errorChan), w.$disp, key G:$poolputs, $usercalls, w.$listeners, w.$armed, $spawned, w.$reapers, key G:$tickersLive
 //@   ensures [running]  result == nil && w.status == running
 //@   ensures [ri]       RI_worker(w)
-//@   ensures [reapers]  w.$reapers <= 1
+//@   ensures [reapers@C18]  w.$reapers <= 1
 //@   ensures [one]      w.$disp == 1 && w.pool.List.len == 1 && $len(w.eventLoopSignal) >= 1
 //@   ghost after call funcvalue when w.$listeners > 0: w.$armed := w.$armed + w.$listeners
 //@   ghost after call funcvalue: w.$listeners := 0
